@@ -163,6 +163,7 @@ def trace_call(func: CallableDef, *args: Any) -> Any:
         for (obj, arg) in zip(args_objs, args, strict=True)
     ]
     locals = Locals({var.name: var for var in arg_vars})
+    prev_uses = [obj._used for obj in args_objs]
     for obj, var in zip(args_objs, arg_vars, strict=True):
         state.dfg[var] = obj._use_wire(func)
 
@@ -170,9 +171,18 @@ def trace_call(func: CallableDef, *args: Any) -> Any:
     arg_exprs: list[ast.expr] = [
         with_loc(state.node, with_type(var.ty, PlaceNode(var))) for var in arg_vars
     ]
-    call_node, ret_ty = func.synthesize_call(
-        arg_exprs, state.node, Context(state.globals, locals, {})
-    )
+    try:
+        call_node, ret_ty = func.synthesize_call(
+            arg_exprs, state.node, Context(state.globals, locals, {})
+        )
+    except GuppyError:
+        # The call doesn't type check, so the arguments haven't been used after all. For
+        # example, the caller might try a reversed operator on the same values next.
+        for obj, prev_use in zip(args_objs, prev_uses, strict=True):
+            obj._used = prev_use
+            if prev_use is None and not obj._ty.droppable:
+                state.unused_undroppable_objs[obj._id] = obj
+        raise
 
     # Compile call
     ret_wire = ExprCompiler(state.ctx).compile(call_node, state.dfg)
